@@ -68,6 +68,14 @@ func genLifecycle(rc *core.RunCtx, env *Env, p lcParams) *lcScenario {
 		sp.SlowStarted = g.Bool(0.3)
 		sc.specs = append(sc.specs, sp)
 	}
+	if p.mw && g.Bool(0.35) {
+		// the actors are configured from one shared base chain plus their own tail
+		for _, sp := range sc.specs {
+			if sp.NMiddleware >= 2 {
+				sp.MWBase, sp.MWSplit = 1, 0
+			}
+		}
+	}
 	// crash plan
 	budgetLeft := map[string]int{}
 	for _, sp := range sc.specs {
@@ -596,6 +604,9 @@ func lcOracles(rc *core.RunCtx, env *Env, sc *lcScenario, mon *Monitor, p lcPara
 				rc.Violate2("C04", "accepted-message-lost", "%s: %s produced no dead letter and was never delivered (actor live, crashes=%d)", id, s.m, ncrash)
 				if ncrash > 0 {
 					rc.Violate2("C05", "message-lost-across-restart", "%s: %s was neither delivered nor dead-lettered (crashes=%d within budget %d)", id, s.m, ncrash, in.Spec.MaxRestarts)
+					if s.m.Op != cPanic {
+						rc.Violate2("C01", "lost-message/across-restart", "%s: %s (not a crashing message) was neither delivered nor dead-lettered although the actor stayed live (crashes=%d within budget %d)", id, s.m, ncrash, in.Spec.MaxRestarts)
+					}
 				} else {
 					rc.Violate2("C01", "lost-message", "%s: %s was neither delivered nor dead-lettered", id, s.m)
 					rc.Violate2("C03", "lost-message", "%s: %s accepted but never processed at quiescence", id, s.m)
@@ -608,6 +619,7 @@ func lcOracles(rc *core.RunCtx, env *Env, sc *lcScenario, mon *Monitor, p lcPara
 			if prev, ok := lastN[d.Msg.Src]; ok && d.Msg.N < prev {
 				if ncrash > 0 {
 					rc.Violate2("C05", "order-broken-across-restart", "%s: %s delivered after a later message of the same sender", id, d.Msg)
+					rc.Violate2("C01", "per-sender-order/across-restart", "%s: %s delivered after a later message of the same sender (crashes=%d)", id, d.Msg, ncrash)
 				} else {
 					rc.Violate2("C01", "per-sender-order", "%s: %s delivered after a later message of the same sender", id, d.Msg)
 				}
@@ -872,9 +884,13 @@ func init() {
 		Run: runLifecycle(lcParams{focus: "C06", crashes: true, lifeCrashes: true, exceed: true, children: true}),
 		Doc: base + "one actor driven beyond MaxRestarts (first batch / replay of the restart buffer / Started); oracle: restarts == budget, exactly one ActorMaxRestartsExceededEvent, unregistered, children stopped and unregistered, later sends dead-letter, no delivery after Stopped, process alive",
 		Faults: []string{"actor-crash-in-Initialized", "actor-crash-in-Started", "actor-crash-in-Receive", "restart-budget-exceeded"}})
+	core.Register(&core.Profile{Property: "C06", Name: "budget-with-poison", Weight: 2, Cfg: cfgEngine,
+		Run: runLifecycle(lcParams{focus: "C06", crashes: true, lifeCrashes: true, exceed: true, stops: true}),
+		Doc: base + "as 'budget', with Stop/Poison callers: the budget-exhausting crash may happen while the batch behind a poison pill is drained or on a message replayed from the restart buffer next to a pill; oracle: the clauses of 'budget' that hold whether or not a stop is in progress, and the process survives",
+		Faults: []string{"actor-crash-in-Initialized", "actor-crash-in-Started", "actor-crash-in-Receive", "restart-budget-exceeded", "concurrent stop/poison"}})
 	core.Register(&core.Profile{Property: "C13", Name: "middleware", Weight: 4, Cfg: cfgEngine,
-		Run: runLifecycle(lcParams{focus: "C13", stops: true, crashes: true, lifeCrashes: true, exceed: false, mw: true, children: true}),
-		Doc: base + "chains of 1-3 recording middlewares on parents and children; all delivery paths (spawn, user, stop, poison, crash, restart); oracle: every delivery is nested in exactly the configured chain in order and each middleware sees the same message and sender as the receiver",
+		Run: runLifecycle(lcParams{focus: "C13", stops: true, crashes: true, lifeCrashes: true, exceed: false, mw: true, children: true, internal: true}),
+		Doc: base + "chains of 1-3 recording middlewares on parents and children; chains given as one option, as two options, or as a base slice shared by several actors (spare capacity; overwritten by the caller after the spawns) plus an own tail; all delivery paths (spawn, user, stop, poison, crash, restart, InternalError restart); oracle: no middleware configured for another actor ever runs in this one's chain, every delivery is nested in exactly the configured chain in order and each middleware sees the same message and sender as the receiver",
 		Faults: []string{"actor-crash-in-Initialized", "actor-crash-in-Started", "actor-crash-in-Receive", "concurrent stop/poison"}})
 	core.Register(&core.Profile{Property: "C13", Name: "middleware-budget", Weight: 1, Cfg: cfgEngine,
 		Run: runLifecycle(lcParams{focus: "C13", crashes: true, lifeCrashes: true, exceed: true, mw: true}),
@@ -882,6 +898,10 @@ func init() {
 	core.Register(&core.Profile{Property: "C01", Name: "engine", Weight: 2, Cfg: cfgEngine,
 		Run: runLifecycle(lcParams{focus: "C01"}),
 		Doc: base + "stop-free and crash-free; sends race Spawn; oracle: each send is delivered exactly once with its sender or dead-lettered (before registration), per-sender order"})
+	core.Register(&core.Profile{Property: "C01", Name: "engine-restarts", Weight: 1, Cfg: cfgEngine,
+		Run: runLifecycle(lcParams{focus: "C01", crashes: true}),
+		Doc: base + "stop-free, with crashes within the restart budget on some messages (backlog larger than the batch, senders continuing through the restart): the messages the actor does not crash on are still delivered exactly once, with their sender, in per-sender order",
+		Faults: []string{"actor-crash-in-Receive"}})
 	core.Register(&core.Profile{Property: "C02", Name: "engine", Weight: 2, Cfg: cfgEngine,
 		Run: runLifecycle(lcParams{focus: "C02", stops: true, crashes: true, lifeCrashes: true, children: true}),
 		Doc: base + "with stop/poison callers and crash/restart; oracle: Receive intervals of one actor never overlap and each access to actor state is ordered after the previous one (vector clocks)"})
